@@ -58,12 +58,47 @@ func corpus(c *hx.Ctx) {
 // them in the base; rounds of "move a point (its referrers are copied into the overlay), then replace a
 // copied referrer", with tag edits in between — the shape that exposed the repeated-token defect. The
 // spatial line of every dump compares the search index with brute force.
+// The driver decides loop orientation with planar integer predicates. At this scale they agree with S2
+// only away from degenerate triangles (the planar / spherical distortion is about 0.2 % of the area), so
+// the ring 1, 2, 7 of a wide case is always kept fat: |signed area| >= 10 % of its longest edge squared.
+func fat(a, b, c [2]int) bool {
+	cross := (b[1]-a[1])*(c[0]-a[0]) - (c[1]-a[1])*(b[0]-a[0])
+	if cross < 0 {
+		cross = -cross
+	}
+	d := func(p, q [2]int) int { return (p[0]-q[0])*(p[0]-q[0]) + (p[1]-q[1])*(p[1]-q[1]) }
+	long := d(a, b)
+	for _, x := range []int{d(b, c), d(a, c)} {
+		if x > long {
+			long = x
+		}
+	}
+	return cross*10 >= long
+}
+
 func wideCase(c *hx.Ctx) {
 	r := c.Rand
 	k := mw.NewCase(c)
 	rp := func() (int, int) { return 515365000 + r.Intn(800000) - 400000, -1245000 + r.Intn(800000) - 400000 }
+	ringPt := map[int][2]int{}
+	// a position for ring point `id` that keeps the ring fat
+	ringPos := func(id int) (int, int, bool) {
+		for try := 0; try < 50; try++ {
+			lat, lng := rp()
+			trial := map[int][2]int{1: ringPt[1], 2: ringPt[2], 7: ringPt[7]}
+			trial[id] = [2]int{lat, lng}
+			if len(ringPt) < 2 {
+				return lat, lng, true // the first two points are free
+			}
+			if fat(trial[1], trial[2], trial[7]) {
+				return lat, lng, true
+			}
+		}
+		return 0, 0, false
+	}
 	for _, id := range []int{1, 2, 7} {
-		lat, lng := rp()
+		lat, lng, _ := ringPos(id)
+		ringPt[id] = [2]int{lat, lng}
 		k.RootFeature(mw.Feat{ID: id, Lat: lat, Lng: lng, Tags: mw.RandTags(r, 1)})
 	}
 	ring := []int{1, 2, 7, 1}
@@ -76,8 +111,19 @@ func wideCase(c *hx.Ctx) {
 	k.Dump()
 	pts := []int{1, 2, 7}
 	for round, n := 0, 2+r.Intn(4); round < n; round++ {
+		moved := pts[r.Intn(len(pts))]
 		lat, lng := rp()
-		k.AddFeature(mw.Feat{ID: pts[r.Intn(len(pts))], Lat: lat, Lng: lng, Tags: mw.RandTags(r, 1)})
+		if _, inRing := ringPt[moved]; inRing {
+			var ok bool
+			if lat, lng, ok = ringPos(moved); !ok {
+				continue
+			}
+		}
+		if k.AddFeature(mw.Feat{ID: moved, Lat: lat, Lng: lng, Tags: mw.RandTags(r, 1)}) == "ok" {
+			if _, inRing := ringPt[moved]; inRing {
+				ringPt[moved] = [2]int{lat, lng}
+			}
+		}
 		for _, id := range []int{3, 4, 8} {
 			if !k.Shadow.Exists[id] || r.Chance(1, 4) {
 				lat, lng := rp()
